@@ -54,8 +54,32 @@ def pmtiles_addressing_stage(run, tier, replay):
     return run
 
 
+def http_range_stage(run):
+    """Beyond the listed properties (observations only, never a verdict or a tool error): range reads over HTTP against an
+    untrusted server (spec/HttpRange.tla): an error or exactly the requested bytes."""
+    try:
+        d = C.outdir("C16_http")
+        cases = os.path.join(d, "cases.ndjson")
+        mc = C.run_tlc("mc/MC_HttpRange.tla", "mc/MC_HttpRange.cfg", "C16_mc_httprange", workers=2, replay_out=cases, timeout=600)
+        C.require_clean(mc, "MC_HttpRange (ThmClientSafe, WitnessBodyLengthUnchecked)")
+        t = os.path.join(d, "trace.ndjson")
+        s = C.run_harness(C.build_harness(), ["replay", "HTTPRANGE", cases, t, C.scratch_dir("C16http")], timeout=1200)
+        v = C.validate_trace("trace/Trace_HttpRange.tla", "trace/Trace_HttpRange.cfg", "C16_trace_httprange", t, timeout=600)
+        by = {}
+        for (_, fl) in v.fails:
+            for cl in fl["clauses"]:
+                by.setdefault((cl, fl["case"]["mode"]), []).append(fl["case"])
+        for (cl, mode), cs in sorted(by.items()):
+            run.observation(cl, {"server_behaviour": mode, "count": len(cs), "first": {k: cs[0].get(k) for k in ("off", "len", "ok", "bytes", "err")}})
+        run.extra.update({"http_range_calls (beyond the property)": s["cases"], "http_range_observations": {"%s/%s" % k: len(v) for k, v in by.items()}})
+    except Exception as e:                      # noqa: BLE001
+        run.observation("http_range_stage_error", {"what": str(e)[:300]})
+
+
 def run(tier, seed, replay):
     run = C.Run("C16", tier, seed, "model_checking")
     containers.run_family("C16", tier, seed, replay, origin="indep", mc_cfg="mc/MC_C16_%s.cfg" % tier, run=run, finish=False)
     pmtiles_addressing_stage(run, tier, replay)
+    if not replay:
+        http_range_stage(run)
     return run.finish()
